@@ -280,6 +280,8 @@ def run(ctx):
     for ci, (cname, plist) in enumerate(H.CASES):
         conds.append(Cond(f"purity+isolation+repointing/{cname}", "c14", "h_purity", {"VF_CASE": ci, "VF_NU": 2 if ctx.tier == "quick" else 3},
                           900 if ctx.tier == "quick" else 3000))
+    conds.append(Cond(f"in-domain extreme parameter sets ({len(H.EXTREME)} sets, IEEE arithmetic): a draw terminates within {H.BUDGET} uniforms, "
+                      "does not raise and lies in the support", "c14", "h_extreme", {}, 900 if ctx.tier == "quick" else 3000))
     ctx.crosshair(conds)
     ctx.bounds = {"parameters": "symbolic over the whole documented domain (Binomial n<=3, NegBinomial s<=2, Erlang k<=3 or k>=10)",
                   "uniforms": "symbolic reals in [0,1) including exactly 0.0",
